@@ -7,7 +7,8 @@ from vlib.runner import Part
 
 PROPERTY = 'C15'
 RULE = ('M-broker rule-based machine with every valid rule plus invalid requests injected at arbitrary points (after '
-        'fills have created positions, with orders pending, with negative cash): negative amounts on all four broker '
+        'fills have created positions, with orders pending, with negative cash; overdrafts from 1e-9 and sub-cent '
+        'excesses up to 1e6; accounts in USD/GBP/EUR): negative amounts on all four broker '
         'transfer calls and both Portfolio calls; amounts exceeding the available cash; unknown portfolio id on '
         'transfers, every getter and submit_order; duplicate id (str and int); unsupported currency (getter and '
         'constructor); negative initial funds; early timestamps on Portfolio.subscribe_funds / withdraw_funds / '
